@@ -285,3 +285,107 @@ def run(prog, chk):
     for k in stmt_kw:
         chk.ob('R14.4', ps, ps.ln, kw[k] in dispatched, 'statement keyword "%s" is dispatched in parseStatement' % k, key='stmt:' + k, nontrivial=False)
     chk.count('statement keywords in the grammar', len(stmt_kw), 7)
+
+    # ---- R14.5 assignment is right-recursive (grammar: assignmentExpression = logicalOr [ "=" assignmentExpression ]) ----------
+    chk.rule('R14.5', 'assignment is right-recursive as in the grammar; member modifiers are accepted in any order')
+    if 'assignmentExpression' in rules and re.search(r'\[\s*"="\s*assignmentExpression\s*\]', rules['assignmentExpression']):
+        pe = prog.fn('Parser::parseExpression')
+        targets = [t for n, fs in prog.callees(pe) for t in fs if t.body and t.name.startswith('bloch::compiler::Parser::')]
+        asg = [t for t in targets if any(x['k'] == 'mcall' and SX.short(x['callee']) == 'match' and 'Equals' in SX.show(x) for x in SX.walk(t.body))]
+        if len(asg) != 1:
+            raise AnalysisBroken('assignment-expression parser not resolved from parseExpression')
+        af = asg[0]
+        ga = prog.cfg(af)
+        eqs = [c for c in ga.nodes if c.kind == 'cond' and SX.is_node(c.e) and c.e.get('k') == 'mcall' and SX.short(c.e['callee']) == 'match' and 'Equals' in SX.show(c.e)]
+        for c in eqs:
+            tedge = [x for x in c.succ if x.kind == 'edge' and x.pol][0]
+            region = {n.id for n in ga.nodes if ga.dominates(tedge, n)}
+            calls_in = [n for n in ga.calls() if n.id in region and n.e.get('k') == 'mcall' and n.e.get('callee', '').startswith('bloch::compiler::Parser::parse')]
+            selfrec = [n for n in calls_in if n.e['callee'] == af.name]
+            other = [SX.short(n.e['callee']) for n in calls_in if n.e['callee'] != af.name]
+            chk.ob('R14.5', af, c.ln or af.ln, bool(selfrec) and not other,
+                   'after `=` the value is parsed by the assignment level itself (right recursion: a = b = c, this.x = this.y = v); found %s' %
+                   (['self'] * len(selfrec) + other), key='assign:right-recursive')
+        chk.count('assignment operators in the assignment parser', len(eqs), 1)
+    else:
+        raise AnalysisBroken('grammar production assignmentExpression not found or not right-recursive')
+    # ---- member modifiers: every modifier branch continues the scan (static / virtual / override in any order) ----------------
+    pcm = prog.fn('Parser::parseClassMember')
+    gm = prog.cfg(pcm)
+    MODS = ('Static', 'Virtual', 'Override')
+    modc = {}
+    for c in gm.nodes:
+        if c.kind == 'cond' and SX.is_node(c.e) and c.e.get('k') == 'mcall' and SX.short(c.e['callee']) == 'match':
+            a = SX.strip(SX.real_args(c.e)[0]) if SX.real_args(c.e) else {}
+            nm = a.get('name', '').split('::')[-1] if SX.is_node(a) and a.get('kind') == 'enum' else None
+            if nm in MODS:
+                modc.setdefault(nm, []).append(c)
+    chk.count('member modifier branches', len(modc), 3)
+    for nm, cs in sorted(modc.items()):
+        for c in cs:
+            heads = [h for h in gm.loops() if gm.dominates(h, c) and h.id in gm.reachable([c])]
+            tedge = [x for x in c.succ if x.kind == 'edge' and x.pol][0]
+            ok = bool(heads) and any(h.id in gm.reachable([tedge]) for h in heads)
+            chk.ob('R14.5', pcm, c.ln or pcm.ln, ok,
+                   'after the modifier `%s` the scan continues with the next modifier (the modifiers of a member may come in any order: '
+                   '`override virtual` and `virtual override` denote the same member)' % nm.lower(), key='modifier-loop:' + nm)
+
+    # ---- R14.6 the declaration look-ahead classifies statement starts as the grammar does --------------------------------------
+    chk.rule('R14.6', 'declaration look-ahead: `Type name` / `Type<…> name` / `Type[] name` are declarations, every expression-statement start is not (abstract evaluation over token patterns)')
+    _typeahead_table(prog, chk)
+
+
+TT = 'bloch::compiler::TokenType::'
+# (tokens of a statement start, is it a declaration?, what it is)
+TYPEAHEAD = [
+    ('Identifier Identifier Semicolon', True, 'Foo x;'),
+    ('Int Identifier Equals IntegerLiteral Semicolon', True, 'int x = 1;'),
+    ('Identifier Less Identifier Greater Identifier Semicolon', True, 'Box<T> b;'),
+    ('Identifier Less Int Greater Identifier Equals', True, 'Box<int> b ='),
+    ('Identifier Less Identifier Less Int Greater Greater Identifier Semicolon', True, 'Box<Box<int>> b;'),
+    ('Identifier Less Identifier Comma Identifier Greater Identifier Semicolon', True, 'Pair<A, B> p;'),
+    ('Identifier Dot Identifier Identifier Semicolon', True, 'pkg.Foo x;'),
+    ('Identifier LBracket RBracket Identifier Semicolon', True, 'Foo[] xs;'),
+    ('Identifier Equals IntegerLiteral Semicolon', False, 'x = 1;'),
+    ('Identifier LParen RParen Semicolon', False, 'f();'),
+    ('Identifier Dot Identifier LParen RParen Semicolon', False, 'o.m();'),
+    ('Identifier LBracket IntegerLiteral RBracket Equals IntegerLiteral Semicolon', False, 'xs[0] = 1;'),
+    ('Identifier Less Identifier Semicolon', False, 'a < b;'),
+    ('Identifier Less Identifier Question Echo LParen StringLiteral RParen Semicolon Colon Echo LParen StringLiteral RParen Semicolon If LParen Identifier Greater Identifier RParen LBrace',
+     False, 'a < b ? echo("y"); : echo("n");  if (c > d) {   — the `>` belongs to the next statement'),
+    ('Identifier Less Identifier AmpersandAmpersand Identifier Greater Identifier Question Echo LParen', False, 'a < b && c > d ? echo(…   — a condition, not Type<…> name'),
+    ('Identifier Less Identifier Semicolon Identifier Equals Identifier Greater Identifier Semicolon', False, 'a < b;  x = c > d;'),
+]
+
+
+def _typeahead_table(prog, chk):
+    from ..kabs import Interp, Obj, Unsupported, OutOfRange
+    ta = prog.fn('Parser::isTypeAhead')
+    tok_enum = [e for name, e in prog.facts.enums.items() if name.endswith('compiler::TokenType')]
+    known = None
+    if tok_enum:
+        known = {c if isinstance(c, str) else c.get('name') for c in (tok_enum[0].get('constants') or tok_enum[0].get('values') or [])}
+        known = {k.split('::')[-1] for k in known if k}
+    bad = []
+    n = 0
+    for toks, want, what in TYPEAHEAD:
+        names = toks.split()
+        if known and any(t not in known for t in names):
+            raise AnalysisBroken('token kind not in the TokenType enumeration: %s' % [t for t in names if t not in known])
+        n += 1
+        this = Obj(m_tokens=[Obj(type=TT + t, value='', line=1, column=1) for t in names] + [Obj(type=TT + 'Eof', value='', line=1, column=1)], m_current=0)
+        try:
+            got = Interp(prog, {}, max_steps=20000).call_fn_env(ta, [], {'this': this})
+        except OutOfRange as ex:
+            bad.append('%s: %s' % (what, ex))
+            continue
+        except Unsupported as ex:
+            raise AnalysisBroken('abstract evaluation of the declaration look-ahead: %s' % ex)
+        if bool(got) != want:
+            bad.append('`%s` is classified as %s' % (what, 'a declaration' if got else 'an expression'))
+    chk.extra['typeahead_patterns'] = n
+    chk.ob('R14.6', ta, ta.ln, not bad,
+           'the look-ahead that decides "declaration or expression statement" agrees with the grammar on %d statement-start token patterns; misclassified: %s' % (n, bad[:4]),
+           key='typeahead-table')
+    chk.count('look-ahead token patterns', n, 12)
+
